@@ -742,7 +742,7 @@ func (o *operation) readRequestMessage(rw *responseWriter, reader io.Reader, msg
 		msgLen, compressed, err = o.processRequestEnvelope(envBuf)
 		if err != nil {
 			if rw != nil {
-				rw.reportError(err)
+				rw.reportRequestError(err)
 			}
 			return err
 		}
@@ -754,7 +754,7 @@ func (o *operation) readRequestMessage(rw *responseWriter, reader io.Reader, msg
 		limit, grow, makeError, limitErr := o.determineReadLimit()
 		if limitErr != nil {
 			if rw != nil {
-				rw.reportError(limitErr)
+				rw.reportRequestError(limitErr)
 			}
 			return limitErr
 		}
@@ -902,7 +902,7 @@ func (r *envelopingReader) checkCurrentComplete() error {
 	}
 	err := malformedRequestError(fmt.Errorf("request body ended %d bytes short of the length in the message envelope: %w", limited.N, io.ErrUnexpectedEOF))
 	r.err = err
-	r.rw.reportError(err)
+	r.rw.reportRequestError(err)
 	return err
 }
 
@@ -969,7 +969,7 @@ func (r *envelopingReader) prepareNext() error {
 		if err != nil {
 			err = malformedRequestError(err)
 			verifPoint("er:reportError")
-			r.rw.reportError(err)
+			r.rw.reportRequestError(err)
 			return err
 		}
 		r.current = io.LimitReader(r.r, int64(env.length))
@@ -1054,7 +1054,7 @@ func (r *transformingReader) Read(data []byte) (n int, err error) {
 		if err := r.prepareMessage(); err != nil {
 			r.err = err
 			verifPoint("tr:reportError")
-			r.rw.reportError(err)
+			r.rw.reportRequestError(err)
 			// Not io.EOF: to the handler, that would be the regular end of the body,
 			// i.e. a complete (for protocols without envelopes: empty) message.
 			return 0, err
@@ -1102,6 +1102,10 @@ func (r *transformingReader) prepareMessage() error {
 // When the headers are written, the actual transformation that is
 // needed is determined and a writer decorator created.
 type responseWriter struct {
+	// mu serializes the handler's response writes with errors reported by the
+	// request body readers: a handler may read the request and write the response
+	// from different goroutines (full duplex), and a bad request ends the response.
+	mu       sync.Mutex
 	op       *operation
 	delegate http.ResponseWriter
 	flusher  http.Flusher
@@ -1138,9 +1142,11 @@ func (w *responseWriter) Header() http.Header {
 }
 
 func (w *responseWriter) Write(data []byte) (n int, err error) {
+	w.mu.Lock()
+	defer w.mu.Unlock()
 	verifPoint("rw:write")
 	if !w.headersWritten {
-		w.WriteHeader(http.StatusOK)
+		w.writeHeader(http.StatusOK)
 	}
 	if w.err != nil {
 		return 0, w.err
@@ -1151,6 +1157,12 @@ func (w *responseWriter) Write(data []byte) (n int, err error) {
 }
 
 func (w *responseWriter) WriteHeader(statusCode int) {
+	w.mu.Lock()
+	defer w.mu.Unlock()
+	w.writeHeader(statusCode)
+}
+
+func (w *responseWriter) writeHeader(statusCode int) {
 	if w.headersWritten {
 		return
 	}
@@ -1306,6 +1318,13 @@ func (w *responseWriter) flushMessage() {
 	w.flusher.Flush()
 }
 
+// reportRequestError reports an error found while reading the request body.
+func (w *responseWriter) reportRequestError(err error) {
+	w.mu.Lock()
+	defer w.mu.Unlock()
+	w.reportError(err)
+}
+
 func (w *responseWriter) reportError(err error) {
 	var end responseEnd
 	if errors.As(err, &end.err) {
@@ -1384,9 +1403,11 @@ func (w *responseWriter) flushHeaders() {
 }
 
 func (w *responseWriter) close() {
+	w.mu.Lock()
+	defer w.mu.Unlock()
 	if !w.headersWritten {
 		// treat as empty successful response
-		w.WriteHeader(http.StatusOK)
+		w.writeHeader(http.StatusOK)
 	}
 	// Take the handler's trailers out of the header map before anything else: if
 	// closing the body below reports an error, they must not reach the client in
@@ -1960,7 +1981,7 @@ func (h *hardLimitReader) Read(data []byte) (n int, err error) {
 	if h.read > h.limit && (err == nil || errors.Is(err, io.EOF)) {
 		err := h.error()
 		if h.rw != nil {
-			h.rw.reportError(err)
+			h.rw.reportRequestError(err)
 		}
 		return n, err
 	}
